@@ -156,7 +156,7 @@ fn liveness_probe(kind: LK, addr: SocketAddr, wait: Duration) -> Probe {
             // TCP: relayed or closed
             let mut s = match net::can_connect(addr) {
                 Ok(s) => s,
-                Err(e) => return Probe::Refused(e),
+                Err(p) => return p,
             };
             let _ = s.write_all(b"GET /liveness HTTP/1.1\r\nHost: nohost.test\r\nConnection: close\r\n\r\n");
             net::read_response(&mut s, wait)
@@ -164,26 +164,14 @@ fn liveness_probe(kind: LK, addr: SocketAddr, wait: Duration) -> Probe {
     }
 }
 
-/// what a listener address does, judged with bounded waits: an active one is probed twice
-/// (fresh connections) before it is called deaf or refusing; an inactive one gets 600 ms to settle
-fn observe_listener(kind: LK, addr: SocketAddr, expect_active: bool) -> Probe {
-    if expect_active {
-        let mut p = liveness_probe(kind, addr, Duration::from_millis(500));
-        if matches!(p, Probe::Silent | Probe::Refused(_)) {
-            std::thread::sleep(Duration::from_millis(200));
-            p = liveness_probe(kind, addr, Duration::from_millis(1500));
-        }
-        p
-    } else {
-        let start = Instant::now();
-        loop {
-            match net::can_connect(addr) {
-                Err(e) => return Probe::Refused(e),
-                Ok(_) if start.elapsed() < Duration::from_millis(600) => std::thread::sleep(Duration::from_millis(100)),
-                Ok(_) => return liveness_probe(kind, addr, Duration::from_millis(800)),
-            }
-        }
-    }
+/// what the probe of an active listener established
+enum Live {
+    Served,
+    Refused(String),
+    /// logical evidence that the worker ran and never accepted the connection
+    Deaf(Value),
+    /// nothing can be concluded (starved worker or harness, foreign socket, ...)
+    NoVerdict(String),
 }
 
 struct Run<'p> {
@@ -200,10 +188,10 @@ struct Run<'p> {
     clusters_missing_backends: BTreeSet<String>,
     /// request number -> full id, for ids that carry padding
     padded: HashMap<u64, String>,
+    /// Status round trip measured on this cell at start: every wait is at least a multiple of it
+    base: Duration,
 }
 
-const ANSWER_WAIT: Duration = Duration::from_secs(3);
-const BARRIER_WAIT: Duration = Duration::from_secs(6);
 
 impl<'p> Run<'p> {
     fn record_status(&mut self, r: &WorkerResponse) {
@@ -243,13 +231,13 @@ impl<'p> Run<'p> {
 
     /// Status barrier: everything sent before it has been processed once it is answered
     fn barrier(&mut self) -> bool {
-        match self.w.call(RequestType::Status(Status {}), BARRIER_WAIT) {
+        match self.w.call(RequestType::Status(Status {}), self.wait(6000)) {
             Ok(_) => true,
             Err(_) => {
                 if !self.w.is_running() {
                     self.worker_died("status barrier");
                 } else {
-                    self.out.inconclusive.push("worker did not answer a Status barrier within 6 s".to_owned());
+                    self.out.inconclusive.push("worker did not answer a Status barrier within the stretched wait".to_owned());
                     self.dead = true;
                 }
                 false
@@ -282,7 +270,9 @@ impl<'p> Run<'p> {
             if self.dead {
                 return;
             }
-            match self.w.wait_final(id, ANSWER_WAIT) {
+            // patience only: the verdict on a missing answer comes from the barrier (ordered channel)
+            let patience = if self.out.obs.contains_key("answer_timeouts_checked_by_barrier") { Duration::from_millis(200) } else { self.wait(1500) };
+            match self.w.wait_final(id, patience) {
                 Ok(r) => self.record_status(&r),
                 Err(CallError::Timeout(_)) => {
                     if !self.w.is_running() {
@@ -525,6 +515,14 @@ impl<'p> Run<'p> {
         if !unknown.is_empty() {
             viols.push(("exactly_once/answer_with_unknown_id".to_owned(), format!("{} response(s) carry an id that was never sent", unknown.len()), json!({"responses": unknown})));
         }
+        // A missing answer is only a fact when something proves the request was processed: the channel
+        // is ordered, so either a request sent later has its final answer, or the worker acknowledged
+        // the closing stop (everything before it was handled). Without such evidence (starved or stuck
+        // worker) the silence is inconclusive.
+        let number_of = |id: &str| id.strip_prefix(&prefix).and_then(|r| r.split(':').next()).and_then(|n| n.parse::<u64>().ok());
+        let last_answered = terminal.keys().filter_map(|id| number_of(id)).max().unwrap_or(0);
+        let stop_acknowledged = skip.is_some_and(|id| terminal.contains_key(id));
+        let mut unproven = 0u64;
         for n in 1..upto {
             let id = self.padded.get(&n).cloned().unwrap_or_else(|| format!("{prefix}{n}"));
             let shown: String = if id.len() > 64 { format!("{}… ({} bytes)", &id[..40], id.len()) } else { id.clone() };
@@ -546,15 +544,20 @@ impl<'p> Run<'p> {
             }
             let idx = idx.filter(|i| *i < self.plan.cmds.len());
             let cmd = idx.map(|i| describe(&self.plan.cmds[i].rt));
-            if t.is_empty() {
+            if t.is_empty() && n > last_answered && !stop_acknowledged {
+                unproven += 1;
+            } else if t.is_empty() {
                 viols.push((format!("exactly_once/no_terminal_answer/{v}"),
-                    format!("request {shown} ({v}) got no OK/FAILURE answer although a later Status barrier was answered ({p} processing notice(s))"),
+                    format!("request {shown} ({v}) got no OK/FAILURE answer although a request sent later was answered (ordered channel) ({p} processing notice(s))"),
                     json!({"command_index": idx, "command": cmd, "processing": p, "id_bytes": id.len()})));
             } else if t.len() > 1 {
                 viols.push((format!("exactly_once/multiple_terminal_answers/{v}"),
                     format!("request {shown} ({v}) got {} terminal answers: {:?}", t.len(), t.iter().map(|s| status_name(*s)).collect::<Vec<_>>()),
                     json!({"command_index": idx, "command": cmd, "answers": t.iter().map(|s| status_name(*s)).collect::<Vec<_>>()})));
             }
+        }
+        if unproven > 0 {
+            self.out.inconclusive.push(format!("{unproven} request(s) unanswered with no later answer to prove they were processed"));
         }
         for (k, n) in obs {
             self.out.o(&k, n);
@@ -567,13 +570,13 @@ impl<'p> Run<'p> {
     // ---- oracle 2: convergence --------------------------------------------------------------
 
     fn call(&mut self, rt: RequestType) -> Option<WorkerResponse> {
-        match self.w.call(rt, Duration::from_secs(4)) {
+        match self.w.call(rt, self.wait(4000)) {
             Ok(r) => Some(r),
             Err(_) => {
                 if !self.w.is_running() {
                     self.worker_died("convergence queries");
                 } else {
-                    self.out.inconclusive.push("a convergence query was not answered within 4 s".to_owned());
+                    self.out.inconclusive.push("a convergence query was not answered within the stretched wait".to_owned());
                 }
                 None
             }
@@ -726,7 +729,72 @@ impl<'p> Run<'p> {
         }
     }
 
-    fn behaviour(&mut self) {
+    /// a wait of at least `ms`, stretched on a slow cell (300 Status round trips), at most 20 s
+    fn wait(&self, ms: u64) -> Duration {
+        Duration::from_millis(ms).max(self.base * 300).min(Duration::from_secs(20))
+    }
+
+    /// `accept` events the worker logged for connections to `addr` (hook H7)
+    fn accepts_at(&self, addr: SocketAddr) -> usize {
+        let tail = format!("Some({addr})");
+        self.w.probe.events().iter().filter(|e| e.kind == "accept" && e.detail.ends_with(&tail)).count()
+    }
+
+    /// Logical evidence that the worker ran after event-loop iteration `from_iter`: a Status sent now
+    /// is answered and the loop completed `n` further iterations. None = it did not (starved, dead):
+    /// nothing may be concluded from silence.
+    fn worker_ran(&mut self, from_iter: u64, n: u64) -> Option<u64> {
+        for _ in 0..(n + 4) {
+            if self.w.call(RequestType::Status(Status {}), self.wait(3000)).is_err() {
+                return None;
+            }
+            let it = self.w.probe.snapshot().iteration;
+            if it >= from_iter + n {
+                return Some(it - from_iter);
+            }
+            std::thread::sleep(Duration::from_millis(5));
+        }
+        None
+    }
+
+    /// Probe a listener the view holds active. A missing answer alone never makes it deaf: the
+    /// worker must have run (Status answered, >= 5 loop iterations after the connect) with accepting
+    /// enabled and still have logged no accept for this address.
+    fn probe_active(&mut self, kind: LK, addr: SocketAddr) -> Live {
+        for attempt in 0..2 {
+            let accepts0 = self.accepts_at(addr);
+            let iter0 = self.w.probe.snapshot().iteration;
+            let p = liveness_probe(kind, addr, self.wait(if attempt == 0 { 700 } else { 5000 }));
+            match p {
+                Probe::Refused(e) => return Live::Refused(e),
+                Probe::NoVerdict(e) => return Live::NoVerdict(format!("connect to an active listener: {e}")),
+                Probe::TlsFailed(e) if kind != LK::Https => return Live::NoVerdict(e),
+                Probe::Silent => {
+                    let Some(advanced) = self.worker_ran(iter0, 5) else {
+                        return Live::NoVerdict("listener probe unanswered and the worker did not run meanwhile (starved)".to_owned());
+                    };
+                    let snap = self.w.probe.snapshot();
+                    let accepts1 = self.accepts_at(addr);
+                    if accepts1 == accepts0 {
+                        if snap.can_accept && !snap.shutting_down && snap.accept_queue_len == 0 {
+                            return Live::Deaf(json!({"loop_iterations_after_connect": advanced, "status_answered_after_connect": true,
+                                "accept_events_for_this_address_before": accepts0, "accept_events_for_this_address_after": accepts1,
+                                "can_accept": snap.can_accept, "nb_connections": snap.nb_connections}));
+                        }
+                        return Live::NoVerdict("listener probe unanswered while the worker is not accepting (limits reached)".to_owned());
+                    }
+                    // accepted, but no byte yet: try once more with a long wait, then give up without a verdict
+                    if attempt == 1 {
+                        return Live::NoVerdict("connection accepted by the worker but unanswered within the (stretched) wait".to_owned());
+                    }
+                }
+                _ => return Live::Served,
+            }
+        }
+        Live::NoVerdict("listener probe unanswered".to_owned())
+    }
+
+    fn behaviour(&mut self, backends: &net::Backends) {
         let cell = self.plan.cell;
         let mut served_http: Vec<SocketAddr> = Vec::new();
         let mut served_tcp: Vec<SocketAddr> = Vec::new();
@@ -744,41 +812,33 @@ impl<'p> Run<'p> {
                 todo.push((kind, port, addr, active));
             }
         }
-        // the six addresses are observed concurrently (a deaf listener costs seconds)
-        let observed: Vec<Probe> = std::thread::scope(|sc| {
-            let hs: Vec<_> = todo.iter().map(|(kind, _, addr, active)| {
-                let (kind, addr, exp) = (*kind, *addr, *active == Some(true));
-                sc.spawn(move || observe_listener(kind, addr, exp))
-            }).collect();
-            hs.into_iter().map(|h| h.join().unwrap_or(Probe::Silent)).collect()
-        });
-        for ((kind, port, addr, active), p) in todo.into_iter().zip(observed) {
+        for (kind, port, addr, active) in todo {
             let k = kind.name();
             let hist = self.listener_history(addr);
             let focus = json!({"ports": [port]});
             if active == Some(true) {
                 self.out.o("listener_probes/active", 1);
-                match p {
-                    Probe::Refused(e) => {
+                match self.probe_active(kind, addr) {
+                    Live::Refused(e) => {
+                        // ECONNREFUSED is the kernel's answer about the address, not a timing matter
                         let add = self.last_listener_add(addr).map(|x| x.1);
                         let act = self.last_forwarded(|rt| matches!(rt, RequestType::ActivateListener(a) if SocketAddr::from(a.address) == addr)).map(|x| x.1);
                         let cause = if add == Some("failure") { "/add_answered_failure" } else if act == Some("failure") { "/activate_answered_failure" } else { "" };
                         self.out.v(&format!("worker/active_listener_refuses_connections/{k}{cause}"),
-                            format!("{k} listener :{port} is active in the main process's view but connect() fails: {e}"),
+                            format!("{k} listener :{port} is active in the main process's view but connect() is refused: {e}"),
                             json!({"listener": format!(":{port}"), "kind": k, "commands_for_this_listener": hist, "focus": focus}));
                     }
-                    Probe::Silent => {
+                    Live::Deaf(evidence) => {
                         let sig = if self.reactivated(addr) { format!("worker/deaf_listener_after_reactivation/{k}") } else { format!("worker/deaf_listener/{k}") };
                         self.out.v(&sig,
-                            format!("{k} listener :{port} is active in the main process's view; the kernel completes the TCP handshake but the worker never serves the connection (no byte, no close; probed twice on fresh connections, 0.5 s then 1.5 s)"),
-                            json!({"listener": format!(":{port}"), "kind": k, "commands_for_this_listener": hist, "focus": focus}));
+                            format!("{k} listener :{port} is active in the main process's view; the kernel completed the TCP handshake, afterwards the worker answered a Status and completed {} event-loop iterations with accepting enabled, yet logged no accept for this address", evidence["loop_iterations_after_connect"]),
+                            json!({"listener": format!(":{port}"), "kind": k, "evidence": evidence, "commands_for_this_listener": hist, "focus": focus}));
                     }
-                    Probe::TlsFailed(e) => {
-                        self.out.v("worker/https_listener_tls_handshake_fails",
-                            format!("https listener :{port} is active and accepts the connection, but the TLS handshake (SNI nohost.test) fails: {e}"),
-                            json!({"listener": format!(":{port}"), "commands_for_this_listener": hist, "focus": focus}));
+                    Live::NoVerdict(why) => {
+                        self.out.o("listener_probes/no_verdict", 1);
+                        self.out.inconclusive.push(why);
                     }
-                    _ => {
+                    Live::Served => {
                         self.out.o("listener_probes/active_served", 1);
                         match kind {
                             LK::Http => served_http.push(addr),
@@ -790,14 +850,43 @@ impl<'p> Run<'p> {
                 }
             } else {
                 self.out.o(if active.is_none() { "listener_probes/absent" } else { "listener_probes/inactive" }, 1);
-                if let Probe::Refused(_) = p {
-                    self.out.o("listener_probes/refused_as_expected", 1);
-                } else {
-                    let how = if matches!(p, Probe::Silent) { "accepted_not_served" } else { "served" };
-                    let state = if active.is_none() { "removed_or_never_added" } else { "inactive" };
-                    self.out.v(&format!("worker/{state}_listener_accepts_connections/{k}/{how}"),
-                        format!("{k} listener :{port} is {state} in the main process's view but still accepts TCP connections 600 ms later ({})", p.short()),
-                        json!({"listener": format!(":{port}"), "kind": k, "probe": p.short(), "commands_for_this_listener": hist, "focus": focus}));
+                // the command that closed the socket was answered before: a refusal is expected at once
+                let mut conn = net::can_connect(addr);
+                let start = Instant::now();
+                while conn.is_ok() && start.elapsed() < Duration::from_millis(600) {
+                    std::thread::sleep(Duration::from_millis(100));
+                    conn = net::can_connect(addr);
+                }
+                match conn {
+                    Err(Probe::Refused(_)) => self.out.o("listener_probes/refused_as_expected", 1),
+                    Err(p) => {
+                        self.out.o("listener_probes/no_verdict", 1);
+                        self.out.inconclusive.push(format!("connect to an inactive listener address: {}", p.short()));
+                    }
+                    Ok(stream) => {
+                        // a LISTEN socket exists at the address: ours (the worker's), or some other process's?
+                        let iter0 = self.w.probe.snapshot().iteration;
+                        let accepts0 = self.accepts_at(addr);
+                        match net::listen_socket_is_ours(addr) {
+                            Some(false) => {
+                                self.out.o("listener_probes/no_verdict", 1);
+                                self.out.inconclusive.push("an inactive listener address is held by a socket of another process".to_owned());
+                            }
+                            ours => {
+                                let ran = self.worker_ran(iter0, 3);
+                                let how = match ran {
+                                    Some(_) if self.accepts_at(addr) > accepts0 => "accepted_by_the_worker",
+                                    Some(_) => "not_accepted_by_the_worker",
+                                    None => "worker_did_not_run",
+                                };
+                                let state = if active.is_none() { "removed_or_never_added" } else { "inactive" };
+                                self.out.v(&format!("worker/{state}_listener_accepts_connections/{k}/{how}"),
+                                    format!("{k} listener :{port} is {state} in the main process's view but a LISTEN socket of this process still completes TCP handshakes on it"),
+                                    json!({"listener": format!(":{port}"), "kind": k, "listen_socket_owned_by_this_process": ours, "commands_for_this_listener": hist, "focus": focus}));
+                            }
+                        }
+                        drop(stream);
+                    }
                 }
             }
         }
@@ -816,13 +905,13 @@ impl<'p> Run<'p> {
             self.tcp_route_probe(addr);
         }
         for port in LK::Udp.ports() {
-            self.udp_route_probe(cell.a(port));
+            self.udp_route_probe(cell.a(port), backends);
         }
     }
 
     /// one datagram per UDP listener address: relayed to a backend of the cluster bound to it and
     /// answered, or dropped when the view has no active listener / frontend / backend there
-    fn udp_route_probe(&mut self, addr: SocketAddr) {
+    fn udp_route_probe(&mut self, addr: SocketAddr, backends: &net::Backends) {
         let active = self.reference.udp_listeners.get(&addr).map(|l| l.active);
         let clusters: Vec<String> = self.reference.udp_fronts.iter().filter(|(_, v)| v.iter().any(|f| f.address == addr)).map(|(c, _)| c.clone()).collect();
         let ports: BTreeSet<u16> = clusters.iter().flat_map(|c| self.backend_ports(c)).collect();
@@ -830,9 +919,26 @@ impl<'p> Run<'p> {
         // a cluster that was removed while its frontend stays, or several clusters on one listener:
         // the statement does not say which wins
         let lenient = clusters.len() > 1 || clusters.iter().any(|c| !self.reference.clusters.contains_key(c));
-        let mut got = net::udp_probe(addr, Duration::from_millis(400));
+        let iter0 = self.w.probe.snapshot().iteration;
+        let relayed0 = backends.udp_received.load(Ordering::SeqCst);
+        let mut got = net::udp_probe(addr, self.wait(400));
         if got.is_none() && routable {
-            got = net::udp_probe(addr, Duration::from_millis(1200));
+            got = net::udp_probe(addr, self.wait(1500));
+        }
+        if got.is_none() && routable && !lenient {
+            // silence proves nothing by itself: the worker must have run after the datagrams were
+            // queued on its socket, and no scripted backend may have received anything
+            let ran = self.worker_ran(iter0, 5);
+            let relayed = backends.udp_received.load(Ordering::SeqCst) - relayed0;
+            if ran.is_none() || relayed > 0 {
+                self.out.o("udp_probes/no_verdict", 1);
+                self.out.inconclusive.push(if ran.is_none() {
+                    "UDP probe unanswered and the worker did not run meanwhile (starved)".to_owned()
+                } else {
+                    "UDP probe relayed to a backend but the reply did not come back within the wait".to_owned()
+                });
+                return;
+            }
         }
         self.out.o("udp_probes", 1);
         self.out.o(match active {
@@ -917,11 +1023,18 @@ impl<'p> Run<'p> {
         if !present && !was_ever_added {
             return; // nothing to say about a frontend that never existed
         }
-        let got = if https {
-            net::https_probe(addr, host, path, Duration::from_millis(3000))
-        } else {
-            net::http_probe(addr, host, path, Duration::from_millis(3000))
-        };
+        let ask = |wait: Duration| if https { net::https_probe(addr, host, path, wait) } else { net::http_probe(addr, host, path, wait) };
+        let mut got = ask(self.wait(3000));
+        if matches!(got, Probe::Silent | Probe::NoVerdict(_)) {
+            got = ask(self.wait(8000));
+        }
+        if matches!(got, Probe::Silent | Probe::NoVerdict(_)) {
+            // no answer is no evidence (worker, backend or harness may be starved); a listener that
+            // does not accept at all is judged by the listener probe, with the hooks
+            self.out.o(&format!("{okey}/no_verdict"), 1);
+            self.out.inconclusive.push(format!("route probe got no answer within the stretched wait ({})", got.class()));
+            return;
+        }
         self.out.o(okey, 1);
         // HTTPS: when no certificate of the view names the host, the default certificate is served
         // and a 421 (authority not covered) is a permitted answer too (C17 judges certificate choice)
@@ -1034,7 +1147,15 @@ impl<'p> Run<'p> {
     fn tcp_route_probe(&mut self, addr: SocketAddr) {
         let clusters: Vec<String> = self.reference.tcp_fronts.iter().filter(|(_, v)| v.iter().any(|f| f.address == addr)).map(|(c, _)| c.clone()).collect();
         let ports: BTreeSet<u16> = clusters.iter().flat_map(|c| self.backend_ports(c)).collect();
-        let got = liveness_probe(LK::Tcp, addr, Duration::from_millis(3000));
+        let mut got = liveness_probe(LK::Tcp, addr, self.wait(3000));
+        if matches!(got, Probe::Silent | Probe::NoVerdict(_)) {
+            got = liveness_probe(LK::Tcp, addr, self.wait(8000));
+        }
+        if matches!(got, Probe::Silent | Probe::NoVerdict(_)) {
+            self.out.o("tcp_route_probes/no_verdict", 1);
+            self.out.inconclusive.push(format!("TCP route probe got no answer within the stretched wait ({})", got.class()));
+            return;
+        }
         self.out.o("tcp_route_probes", 1);
         if clusters.len() > 1 {
             self.out.o("tcp_route_probes/several_clusters_on_one_listener(lenient)", 1);
@@ -1107,9 +1228,9 @@ impl<'p> Run<'p> {
         let start = Instant::now();
         let mut slab_above_base_at_rest = false;
         loop {
-            let _ = self.w.call(RequestType::Status(Status {}), Duration::from_secs(2));
+            let _ = self.w.call(RequestType::Status(Status {}), self.wait(2000));
             let s = self.w.probe.snapshot();
-            if (s.nb_connections == 0 && s.accept_queue_len == 0) || start.elapsed() > Duration::from_secs(3) {
+            if (s.nb_connections == 0 && s.accept_queue_len == 0) || start.elapsed() > self.wait(3000) {
                 if s.nb_connections == 0 {
                     if s.slab_len > s.base_sessions_count {
                         slab_above_base_at_rest = true;
@@ -1136,12 +1257,13 @@ impl<'p> Run<'p> {
         if soft && self.plan.inflight && !self.plan.raw {
             if let Some((addr, host, path, cluster)) = self.slow_target() {
                 // only on a listener that was seen serving (a deaf listener is reported elsewhere)
-                if matches!(net::http_probe(addr, &host, if path.starts_with("/api") { "/api/x" } else { "/zz" }, Duration::from_millis(1500)), Probe::Http { status: 200, .. }) {
+                if matches!(net::http_probe(addr, &host, if path.starts_with("/api") { "/api/x" } else { "/zz" }, self.wait(1500)), Probe::Http { status: 200, .. }) {
                     let before = backends.slow_seen.load(Ordering::SeqCst);
                     if let Ok(mut s) = net::can_connect(addr) {
                         let _ = s.write_all(format!("GET {path} HTTP/1.1\r\nHost: {host}\r\n\r\n").as_bytes());
                         let t0 = Instant::now();
-                        while backends.slow_seen.load(Ordering::SeqCst) == before && t0.elapsed() < Duration::from_millis(1500) {
+                        let patience = self.wait(1500);
+                        while backends.slow_seen.load(Ordering::SeqCst) == before && t0.elapsed() < patience {
                             std::thread::sleep(Duration::from_millis(2));
                         }
                         if backends.slow_seen.load(Ordering::SeqCst) > before {
@@ -1181,20 +1303,54 @@ impl<'p> Run<'p> {
         self.sent.insert(stop_id.clone(), Sent { idx: usize::MAX, verb: stop_verb, status: None, message: String::new() });
         let sent_at = Instant::now();
 
-        // the in-flight request must complete
+        // Wait for the stop to resolve. Wall-clock never decides alone: "stuck" needs the event loop to
+        // have completed many iterations after the stop was sent (hook H3) in a state where it should
+        // have finished; a loop that does not advance means a starved box and gives no verdict.
+        let iter_at_send = self.w.probe.snapshot().iteration;
+        let deadline = Instant::now() + Duration::from_secs(45);
+        let mut first_quiet_iter: Option<u64> = None;
+        let mut stuck: Option<u64> = None; // iterations observed in the should-have-finished state
+        let mut starved = false;
+        let final_answer;
+        loop {
+            let r = self.w.wait_final(&stop_id, Duration::from_millis(150));
+            if !self.w.is_running() {
+                final_answer = r;
+                break;
+            }
+            let sn = self.w.probe.snapshot();
+            if soft {
+                if sn.shutting_down && sn.nb_connections == 0 && sn.accept_queue_len == 0 {
+                    let q = *first_quiet_iter.get_or_insert(sn.iteration);
+                    if sn.iteration >= q + 30 {
+                        stuck = Some(sn.iteration - q);
+                    }
+                } else {
+                    first_quiet_iter = None;
+                }
+            } else if sn.iteration >= iter_at_send + 10 {
+                stuck = Some(sn.iteration - iter_at_send);
+            }
+            if stuck.is_some() {
+                final_answer = r;
+                break;
+            }
+            if Instant::now() > deadline {
+                starved = true;
+                final_answer = r;
+                break;
+            }
+        }
+        let _ = slab_above_base_at_rest;
+        let exited = !self.w.is_running() && self.w.join(Duration::from_secs(5));
+        // the in-flight request: whatever the client can still read now (a worker that is gone
+        // cannot send more; one that is stuck or starved is judged below, not here)
         let mut inflight_result: Option<Probe> = None;
         if let Some((mut s, _, _, _)) = inflight.take() {
-            let p = net::read_response(&mut s, Duration::from_millis(net::SLOW_MS + 3000));
+            let p = net::read_response(&mut s, if exited { Duration::from_millis(500) } else { self.wait(net::SLOW_MS + 3000) });
             drop(s);
             inflight_result = Some(p);
         }
-        // wait for the final answer and the thread's exit
-        // 100 ms shutdown tick: an idle worker acknowledges within a tick or two. When the hook already
-        // shows more slab entries than base sessions with nothing connected, 15 ticks are enough to see
-        // that nothing moves; otherwise be generous
-        let (w1, w2) = if slab_above_base_at_rest { (1200, 300) } else { (2500, 1500) };
-        let final_answer = self.w.wait_final(&stop_id, Duration::from_millis(w1));
-        let exited = self.w.join(Duration::from_millis(w2));
         // read whatever is left on the channel
         while let Ok(Some(_)) = self.w.recv(Duration::from_millis(50)) {}
         let upto = self.w.next_id().rsplit('-').next().and_then(|n| n.parse::<u64>().ok()).unwrap_or(0);
@@ -1211,29 +1367,23 @@ impl<'p> Run<'p> {
         let events: Vec<(&'static str, String)> = self.w.probe.events().iter().skip(events_before).map(|e| (e.kind, e.detail.clone())).collect();
         let kinds: Vec<&str> = self.w.probe.events().iter().map(|e| e.kind).filter(|k| *k != "accept").collect();
         let detail = json!({"focus": inflight_focus, "stop": stop_verb, "final_answers": terminals.iter().map(|s| status_name(*s)).collect::<Vec<_>>(), "processing_notices": processing,
-            "thread_exited": exited, "ms_since_stop_sent": sent_at.elapsed().as_millis() as u64,
+            "thread_exited": exited, "ms_since_stop_sent": sent_at.elapsed().as_millis() as u64, "loop_iterations_since_stop_sent": snap.iteration.saturating_sub(iter_at_send),
             "snapshot": {"nb_connections": snap.nb_connections, "slab_len": snap.slab_len, "base_sessions_count": snap.base_sessions_count,
                 "accept_queue_len": snap.accept_queue_len, "shutting_down": snap.shutting_down},
             "events_after_stop": events.iter().map(|(k, d)| format!("{k} {d}")).collect::<Vec<_>>(),
             "inflight_request": inflight_result.as_ref().map(|p| p.short())});
 
-        // bounded-liveness judgement: before calling a stop stuck, give it 8 more seconds (a starved
-        // box makes a healthy worker late; a stuck one stays stuck)
-        let exited_late = !exited && self.w.is_running() && self.w.join(Duration::from_secs(8));
-        if exited_late {
-            while let Ok(Some(_)) = self.w.recv(Duration::from_millis(50)) {}
-            self.out.inconclusive.push(format!("{stop_verb} completed, but only after more than {} ms", w1 + w2));
+        if !exited && starved {
+            self.out.inconclusive.push(format!("{stop_verb}: unresolved after 45 s while the event loop advanced by only {} iterations (starved)", snap.iteration.saturating_sub(iter_at_send)));
         } else if !exited && self.w.is_running() {
-            if soft && snap.nb_connections == 0 && snap.accept_queue_len == 0 {
-                // logical condition, not a clock: nothing is left to drain and 40 shutdown ticks passed
+            let n = stuck.unwrap_or(0);
+            if soft {
                 let which = if snap.slab_len > snap.base_sessions_count { "slab_above_base" } else { "other" };
                 self.out.v(&format!("worker/soft_stop_never_completes/{which}"),
-                    format!("SoftStop: no session is left (nb_connections=0, accept queue empty) but {} ms ({} shutdown ticks) later, and again 8 s after that, the worker has neither acknowledged nor exited: slab_len={} base_sessions_count={}", w1 + w2, (w1 + w2) / 100, snap.slab_len, snap.base_sessions_count),
+                    format!("SoftStop: the event loop completed {n} iterations with shutting_down set, no session left (nb_connections=0, accept queue empty) and still neither acknowledged nor exited: slab_len={} base_sessions_count={}", snap.slab_len, snap.base_sessions_count),
                     detail.clone());
-            } else if !soft {
-                self.out.v("worker/hard_stop_does_not_exit", "HardStop: worker thread still running after 12 s".to_owned(), detail.clone());
             } else {
-                self.out.inconclusive.push(format!("soft stop pending with {} session(s) left", snap.nb_connections));
+                self.out.v("worker/hard_stop_does_not_exit", format!("HardStop: the event loop completed {n} iterations after the HardStop was written and the worker is still running"), detail.clone());
             }
         } else if !exited {
             self.worker_died(stop_verb);
@@ -1300,15 +1450,39 @@ pub fn run_plan(plan: &Plan) -> Outcome {
             return out;
         }
     };
-    let opts = WorkerOpts { front_timeout: 20, back_timeout: 20, connect_timeout: 2, request_timeout: 10, ..WorkerOpts::default() };
+    // sozu's own timers are kept far above every wait of the probes, so that none of them can fire
+    // on a starved box and turn into an answer (503/504/408) the oracles would misread
+    let mut opts = WorkerOpts { front_timeout: 120, back_timeout: 120, connect_timeout: 60, request_timeout: 120, ..WorkerOpts::default() };
+    if plan.small_buffers {
+        opts.command_buffer_size = 65_536;
+        opts.max_command_buffer_size = 131_072;
+    }
     let w = Worker::start(opts);
-    let mut run = Run { plan, w, out: Outcome::default(), reference: ConfigState::new(), sent: HashMap::new(), forwarded: Vec::new(), prev_dump: None, dead: false, clusters_missing_backends: BTreeSet::new(), padded: HashMap::new() };
+    let mut run = Run { plan, w, out: Outcome::default(), reference: ConfigState::new(), sent: HashMap::new(), forwarded: Vec::new(), prev_dump: None, dead: false, clusters_missing_backends: BTreeSet::new(), padded: HashMap::new(), base: Duration::from_millis(1) };
     run.out.o(if plan.raw { "sequences/raw" } else { "sequences/master_filtered" }, 1);
     run.out.o(if plan.burst { "sequences/bursts" } else { "sequences/one_at_a_time" }, 1);
+    if plan.small_buffers {
+        run.out.o("sequences/small_command_buffers", 1);
+    }
     for p in &plan.patterns {
         run.out.o(&format!("pattern/{p}"), 1);
     }
-    if plan.c07 {
+    // baseline of this cell: the median of three Status round trips
+    let mut rtts: Vec<Duration> = (0..3).filter_map(|_| {
+        let t = Instant::now();
+        run.w.call(RequestType::Status(Status {}), Duration::from_secs(20)).ok().map(|_| t.elapsed())
+    }).collect();
+    rtts.sort();
+    match rtts.get(rtts.len() / 2) {
+        Some(m) if rtts.len() == 3 => run.base = (*m).max(Duration::from_micros(100)),
+        _ => {
+            run.out.inconclusive.push("the worker did not answer the baseline Status requests within 20 s".to_owned());
+            run.dead = true;
+        }
+    }
+    let m = run.out.obs.entry("max:baseline_status_rtt_us".to_owned()).or_insert(0);
+    *m = (*m).max(run.base.as_micros() as u64);
+    if plan.c07 && !run.dead {
         run.prev_dump = run.w.dump_state(Duration::from_secs(3));
     }
     let mut traffic = if plan.traffic {
@@ -1330,7 +1504,7 @@ pub fn run_plan(plan: &Plan) -> Outcome {
         if !plan.raw {
             run.converge();
             if !run.dead && run.w.is_running() {
-                run.behaviour();
+                run.behaviour(&backends);
             }
         }
         if !run.dead && run.w.is_running() {
